@@ -127,15 +127,21 @@ void run_req(int fam, int k, const std::vector<float>& stream, int parts, uint64
   }
 }
 
+bool fam_has_large_k(int fam) { return fam == KLL || fam == CLASSIC; }
+
 void prop(const Case& cs) {
   int fam = static_cast<int>(cs.get("fam", 0) % NFAM);
   int pat = static_cast<int>(cs.get("pat", 0) % 4);
   int parts = static_cast<int>(1 + cs.get("parts", 0) % 8);
-  int ksel = static_cast<int>(cs.get("k", 0) % 3);
+  int ksel = static_cast<int>(cs.get("k", 0) % 5);
   uint64_t n = 10000 + static_cast<uint64_t>(cs.get("n", 0)) % 190000;
+  // ksel 3, 4: the upper half of the 16-bit k range (KLL 32768 / 40000, classic 16384 / 32768) with streams long enough for estimation mode
+  if (ksel >= 3 && fam_has_large_k(static_cast<int>(cs.get("fam", 0) % NFAM))) n = 150000 + n;
   uint64_t cseed = static_cast<uint64_t>(cs.get("seed", 1));
   long T = vf::env_long("VF_TRIALS", 20);
-  int k = fam == KLL ? (ksel == 0 ? 200 : ksel == 1 ? 64 : 400) : fam == CLASSIC ? (ksel == 0 ? 128 : ksel == 1 ? 32 : 256) : (ksel == 0 ? 12 : ksel == 1 ? 6 : 24);
+  static const int kk[] = {200, 64, 400, 32768, 40000}, kc[] = {128, 32, 256, 16384, 32768}, kr[] = {12, 6, 24, 12, 24};  // REQ thresholds are calibrated for k 6..24 only
+  int k = fam == KLL ? kk[ksel] : fam == CLASSIC ? kc[ksel] : kr[ksel];
+  if (k >= 16384) vf::label("large-k");
   std::vector<float> stream = make_stream(n, pat, cseed ^ 0x55);
   std::ostringstream who; who << fam_name(fam) << " k=" << k << " n=" << n << " pattern=" << pat << " parts=" << parts << " T=" << T;
   // exactly one part (never the first) is small; when it is the second operand of a pair whose result is later merged into
@@ -154,7 +160,7 @@ void prop(const Case& cs) {
 
 rc::Gen<Case> gen() {
   using namespace vf;
-  return make_case({{"fam", range(0, NFAM - 1)}, {"pat", range(0, 3)}, {"parts", rc::gen::weightedOneOf<int64_t>({{1, range(0, 0)}, {2, range(1, 7)}})}, {"k", range(0, 2)},
+  return make_case({{"fam", range(0, NFAM - 1)}, {"pat", range(0, 3)}, {"parts", rc::gen::weightedOneOf<int64_t>({{1, range(0, 0)}, {2, range(1, 7)}})}, {"k", rc::gen::weightedOneOf<int64_t>({{6, range(0, 2)}, {2, range(3, 4)}})},
                     {"n", range(0, 189999)}, {"seed", range(1, 1 << 30)}, {"mixk", range(0, 1)}},
                    rc::gen::just(std::vector<Op>{}));
 }
